@@ -6,6 +6,10 @@ Log == ndJsonDeserialize(IOEnv.TRACE)
 VARIABLES l
 Ev == Log[l]
 
+ScaleP(P, f) == [k \in DOMAIN P |-> <<f * P[k][1], f * P[k][2]>>]
+BigTol(P, S) == (IF AllManhattan(<<P>>) THEN 0 ELSE 1000 * 2 * GroupPerimLen(<<ScaleP(P, S)>>)) + 4 * S * S
+RECURSIVE Cat(_)
+Cat(ss) == IF Len(ss) = 0 THEN <<>> ELSE Head(ss) \o Cat(Tail(ss))
 FractureFailing(ev) ==
     LET g == ev.g
         S == g.s
@@ -23,6 +27,15 @@ FractureFailing(ev) ==
              \cup (IF over = {} THEN {} ELSE {<<"pieces_overlap", CHOOSE q \in over : TRUE>>})
              \cup (IF ev.same_meta THEN {} ELSE {<<"tag_repetition_properties_not_copied">>})
              \cup (IF Len(ev.pieces) >= 1 THEN {} ELSE {<<"no_pieces">>})
+             \* [M] on a grid of 1e-9 (scaled coordinates beyond 32 bits) the pieces still add up to the
+             \* polygon's area (1/1000 square unit, held to 2/1000) and respect the limit
+             \* (the reference is the area of the pieces on the coarse grid, which the region clauses above
+             \* tie to the polygon; coarse-grid rounding of slanted crossings is allowed for as in C05;
+             \* 32-bit integers: scalings 1 and 8)
+             \cup (IF "big_area" \notin DOMAIN ev \/ S > 8 THEN {}
+                   ELSE (IF Abs(2 * S * S * ev.big_area - 1000 * GroupArea2(ev.pieces)) <= BigTol(g.p, S) /\ ev.big_n >= 1 THEN {}
+                         ELSE {<<"big_scale_area">>})
+                        \cup (IF ev.big_max <= g.limit THEN {} ELSE {<<"big_scale_piece_exceeds_limit">>}))
 
 \* C01, vertex limit: write_gds(max_points = limit) followed by read_gds.  Below 5 (or with no more
 \* vertices than the limit) the polygon is stored as it is; otherwise plain polygons of at most
@@ -81,6 +94,11 @@ SliceFailing(ev) ==
     IN  (IF ev.lat /\ ev.err = 0 THEN {} ELSE {<<"lattice_or_error">>})
         \cup (IF Len(ev.bins) = Len(g.cuts) + 1 THEN {} ELSE {<<"bin_count">>})
         \cup (IF bad = {} THEN {} ELSE {<<"slice_region", CHOOSE q \in bad : TRUE>>})
+        \cup (IF "big_area" \notin DOMAIN ev \/ S > 8 THEN {}
+              ELSE IF ev.big_err = 0
+                      /\ Abs(2 * S * S * ev.big_area
+                             - 1000 * GroupArea2(Cat([b \in DOMAIN ev.bins |-> ev.bins[b]]))) <= BigTol(g.p, S) THEN {}
+              ELSE {<<"big_scale_area">>})
 
 Check(ev) == CASE ev.e = "fracture" -> FractureFailing(ev)
                [] ev.e = "slice" -> SliceFailing(ev)
